@@ -110,6 +110,7 @@ type transaction struct {
 	store   *store
 	op      keyvalue.OpID
 	results []keyvalue.OpResult
+	unlock  sync.Once // the store's lock is released by whichever of Commit and Abort runs first
 }
 
 func (s *store) Transaction(options keyvalue.TransactionOptions) (keyvalue.Transaction, error) {
@@ -133,6 +134,13 @@ func (t *transaction) prepOp() (keyvalue.OpID, error) {
 	op := t.op
 	t.op++
 	return op, nil
+}
+
+// end cancels the transaction and releases the store. Safe to call more than once,
+// e.g. Commit after Abort, or after a handler called Abort.
+func (t *transaction) end() {
+	t.abort()
+	t.unlock.Do(t.store.mu.Unlock)
 }
 
 func (t *transaction) Get(path string) keyvalue.OpID {
@@ -180,13 +188,11 @@ func (t *transaction) SetHandler(path string, src keyvalue.FileRecord, contents 
 }
 
 func (t *transaction) Commit(ctx context.Context) ([]keyvalue.OpResult, error) {
-	t.abort()
-	t.store.mu.Unlock()
+	t.end()
 	return t.results, nil
 }
 
 func (t *transaction) Abort() error {
-	t.abort()
-	t.store.mu.Unlock()
+	t.end()
 	return nil
 }
